@@ -28,11 +28,12 @@ INVS = ["TypeOK", "LenIsSum", "RoundTrip", "ZeroOperand", "RejectIff", "PadOK", 
 # ---------------------------------------------------------------------------------- rendering tables
 # abstract character name -> the character (rendering only; its bytes come from Data.tla)
 CHARS = {"A": "A", "z": "z", "d7": "7", "sp": " ", "semi": ";", "dq": '"', "sq": "'", "sl": "/",
-         "ya": "я", "eacute": "é", "alpha": "α"}
+         "ya": "я", "eacute": "é", "alpha": "α", "del": "\x7f"}
 # escape name -> (source spellings, the character it denotes -- used only to cross-check the module's table)
 ESCAPES = {"n": (["\\n"], "\n"), "r": (["\\r"], "\r"), "t": (["\\t"], "\t"), "bs": (["\\\\"], "\\"),
            "dq": (['\\"'], '"'), "sq": (["\\'"], "'"), "sl": (["\\/"], "/"),
-           "x41": (["\\x41"], "A"), "x7e": (["\\x7e", "\\x7E"], "~"), "x00": (["\\x00"], "\x00")}
+           "x41": (["\\x41"], "A"), "x7e": (["\\x7e", "\\x7E"], "~"), "x00": (["\\x00"], "\x00"),
+           "x7f": (["\\x7f", "\\x7F"], "\x7f")}
 NAMES = {"byte": ".byte", "db": ".db", "word": ".word", "dw": ".dw", "dword": ".dword", "list": "",
          "blkb": ".blkb", "blkw": ".blkw", "even": ".even", "odd": ".odd", "align": ".align",
          "ascii": ".ascii", "asciz": ".asciz"}
@@ -184,6 +185,8 @@ def check_table(recs):
             want = list(ch.encode(codec))
         except UnicodeEncodeError:
             want = None
+        if cs == "bk" and ch == "\x7f":
+            want = None                          # bk coincides with ASCII on 0x00-0x7E only (property C14): no U+007F
         got = rec["image"] if rec["outcome"] == "ok" else None
         if want != got:
             raise MachineryError(f"Data.tla character table disagrees with Python's codec {codec!r} on {ch!r} "
@@ -268,8 +271,8 @@ def main(run):
                              f"items={len(last['items'])}" if last["d"] in ("ascii", "asciz") else "fill/pad directives")
         del recs, keys
     run.note("charset_table_rows_checked_against_python_codecs", table_rows)
-    if table_rows != 5 * 21:
-        raise MachineryError(f"only {table_rows} rows of the character table were cross-checked (expected 5 charsets x 21 characters)")
+    if table_rows != 5 * 23:
+        raise MachineryError(f"only {table_rows} rows of the character table were cross-checked (expected 5 charsets x 23 characters)")
     # vacuity: every directive must occur accepted and (where refusal exists) refused; every modulus; every charset
     ds = {(d, o) for (_, d, o) in cls}
     for d in NAMES:
